@@ -411,14 +411,14 @@ func checkC02() int {
 	nProg := c.pick(450, 2500)
 	nCfg := c.pick(6, 14)
 	cases := genCases(c, nProg, 2, func(i int) *gen.Opt {
-		if i%2 == 0 {
-			return nil
-		}
-		if i%6 == 5 {
+		if i%3 == 2 {
 			// parked servers holding the whole context (often padded to 9..14 channels) that are
 			// split, half-dropped or dropped; bodies that cut and then hand everything to a call
 			o := gen.Opt{MaxSplit: 4, Pol: 2, Alias: 30, ExplicitSelf: 15, ExplicitProv: 10, Exec: 10, Print: 10, TopMax: 3, Fuel: 3, MultiProv: 40, Drop: 20, Split: 20, Tail: 35, Capture: 35, Wide: 50, MainMode: []vast.Mode{vast.Rep, vast.Rep, vast.Aff}[i%3]}
 			return &o
+		}
+		if i%3 == 0 {
+			return nil
 		}
 		// drop / split heavy
 		o := gen.Opt{MaxSplit: 4, Pol: 2, Alias: 30, ExplicitSelf: 10, ExplicitProv: 10, Exec: 10, Print: 8, TopMax: 3, Fuel: 3, MultiProv: 35, Drop: 35, Split: 25, Mixed: i%6 == 1, MainMode: []vast.Mode{vast.Rep, vast.Aff, vast.Rep, vast.Lin}[i%4]}
@@ -426,7 +426,7 @@ func checkC02() int {
 	})
 	nGen := len(cases)
 	cases = append(cases, closedCorpus(pool)...)
-	c.Rule = "G1 programs (closed, fully consumed, terminating; half of them drop/split heavy) in async and sync polarized mode under seeded configurations; oracle: blocked-on table at exact quiescence (async: empty; sync: only senders on unconsumed top-level channels), event budget 50x the reference step count; corpus programs with the weaker rule (no receiver blocked off the top-level interface); non-trivial = distinct program with >= 3 processes that reached quiescence"
+	c.Rule = "G1 programs (closed, fully consumed, terminating; a third drop/split heavy, a third capture heavy) in async and sync polarized mode under seeded configurations; oracle: blocked-on table at exact quiescence (async: empty; sync: only senders on unconsumed top-level channels), event budget 50x the reference step count; corpus programs with the weaker rule (no receiver blocked off the top-level interface); non-trivial = distinct program with >= 3 processes that reached quiescence"
 	c.Assumptions = []string{"no starvation: quiescence is decided when no process is running and no blocked operation can complete (hook accounting), not by the 50 ms heartbeat", "termination of generated programs is by construction and confirmed by the reference run"}
 	outs := runMatrix(c, pool, cases, nCfg, modesPolarized)
 	// plus: the real entry point with its heartbeat on a tenth of the programs
@@ -544,7 +544,7 @@ func checkC03() int {
 	})...)
 	// wide programs: parallel compositions of 12 independent programs (30..60 top-level
 	// processes, many calls of different functions at the same instant)
-	wide := wideCases(c, c.pick(16, 120), 12, 34, nil)
+	wide := wideCases(c, c.pick(24, 120), 12, 34, nil)
 	outs = append(outs, runMatrix(c, pool, wide, nCfg, func(pc *progCase) []string {
 		if pc.Contr {
 			return []string{"async", "sync"}
